@@ -183,3 +183,21 @@ V("C15-put-no-rollback","C15",SH+"put.go","			var err = s.blobStor.Delete(addr)\
 V("C16-detach-without-flush","C16",WC+"mode.go","		err := c.flush(true)\n		if err != nil {\n			return err\n		}","		err := c.flush(true)\n		if err != nil && !m.ReadOnly() {\n			return err\n		}",rule="C16.R2")
 V("C16-cache-miss-returns-notfound","C16",SH+"get.go","		if errors.Is(err, apistatus.ErrObjectNotFound) {\n			s.log.Debug(\"object is missing in write-cache\",","		if errors.Is(err, apistatus.ErrObjectNotFound) && skipMeta {\n			return false, err\n		}\n		if errors.Is(err, apistatus.ErrObjectNotFound) {\n			s.log.Debug(\"object is missing in write-cache\",",rule="C16.R3")
 V("C16-worker-leaks-rlock","C16",WC+"flush.go","		c.modeMtx.RLock()\n		if !c.readOnly() {","		c.modeMtx.RLock()\n		if c.readOnly() {\n			continue\n		}\n		if !c.readOnly() {",rule="C16.R4")
+
+FW="pkg/local_object_storage/blobstor/fstree/fstree_write_linux.go"
+V("C13-revert-fix-lock-leak","C13",FW,"	if err != nil {\n		w.batchLock.Unlock()\n		return err\n	}\n	err = sb.write(id, p, data)","	if err != nil {\n		return err\n	}\n	err = sb.write(id, p, data)",rule="C13.R1")
+V("C13-revert-fix-double-finalize","C13",FW,"	if err == nil && (sb.cnt >= w.combinedCountLimit || sb.size >= w.combinedSizeLimit) {","	if err == nil && sb.cnt >= w.combinedCountLimit || sb.size >= w.combinedSizeLimit {",rule="C13.R2")
+V("C13-newbatch-unlocks-on-success","C13",FW,"	sb.lock.Lock()\n	sb.timer = time.AfterFunc(w.combinedWriteInterval, sb.sync)","	sb.timer = time.AfterFunc(w.combinedWriteInterval, sb.sync)",rule="C13.R0")
+V("C13-link-error-swallowed","C13",FW,"		b.err = err\n		b.intSync()\n		return b.err\n	}\n	return nil\n}","		b.err = err\n		b.intSync()\n	}\n	return nil\n}",rule="C13.R")
+V("C13-writefile-ignores-close-error","C13",FW,"	if errClose != nil {\n		return fmt.Errorf(\"unix close: %w\", errClose)\n	}\n	return nil","	_ = errClose\n	return nil",rule="C13.R3")
+V("C13-generic-close-error-ignored","C13","pkg/local_object_storage/blobstor/fstree/fstree_write_generic.go","	err = f.Close()\n	if err != nil {\n		return fmt.Errorf(\"close file: %w\", err)\n	}\n	return nil","	_ = f.Close()\n	return nil",rule="C13.R3")
+V("C13-batch-error-cleared","C13",FW,"	err = unix.Close(b.fd)\n	if b.err == nil && err != nil {\n		b.err = err\n	}","	err = unix.Close(b.fd)\n	b.err = err",rule="C13.R4")
+V("C13-silent-defer-unlock","C13",FW,"func (w *linuxWriter) finalize() error {\n	w.batchLock.Lock()\n	defer w.batchLock.Unlock()\n	if w.batch != nil {\n		w.batch.sync()\n		w.batch = nil\n	}\n	return nil\n}","func (w *linuxWriter) finalize() error {\n	w.batchLock.Lock()\n	if w.batch == nil {\n		w.batchLock.Unlock()\n		return nil\n	}\n	w.batch.sync()\n	w.batch = nil\n	w.batchLock.Unlock()\n	return nil\n}",expect="silent")
+
+FG="pkg/local_object_storage/blobstor/fstree/fstree_write_generic.go"
+V("C12-link-before-length-check","C12",FW,"		if n == len(data) {\n			err = unix.Linkat(unix.AT_FDCWD, tmpPath, unix.AT_FDCWD, p, unix.AT_SYMLINK_FOLLOW)","		if n == len(data) || n > 0 {\n			err = unix.Linkat(unix.AT_FDCWD, tmpPath, unix.AT_FDCWD, p, unix.AT_SYMLINK_FOLLOW)",rule="C12.R1")
+V("C12-batch-link-without-length-check","C12",FW,"	if n != len(pref)+len(data) {\n		b.err = errors.New(\"incomplete write\")\n		b.intSync()\n		return b.err\n	}\n","	_ = n\n",rule="C12.R1",more=[{"file":FW,"old":"	b.size += n\n","new":"	b.size += len(data)\n"}])
+V("C12-generic-writes-final-path","C12",FG,"		tmpPath := p + \"#\" + strconv.FormatUint(uint64(i), 10)\n		err := w.writeAndRename(tmpPath, p, data)","		tmpPath := p + \"#\" + strconv.FormatUint(uint64(i), 10)\n		if i == retryCount-1 {\n			return w.writeFile(p, data)\n		}\n		err := w.writeAndRename(tmpPath, p, data)",rule="C12.R2")
+V("C12-rename-on-write-error","C12",FG,"		return fmt.Errorf(\"write data into file %q: %w\", tmpPath, err)\n	}\n\n	err = os.Rename(tmpPath, p)","		if !errors.Is(err, common.ErrNoSpace) {\n			return fmt.Errorf(\"write data into file %q: %w\", tmpPath, err)\n		}\n	}\n\n	err = os.Rename(tmpPath, p)",rule="C12.R1")
+V("C12-cleaner-other-separator","C12","pkg/local_object_storage/blobstor/fstree/fstree.go","			if !d.IsDir() && strings.Contains(d.Name(), \"#\") {","			if !d.IsDir() && strings.Contains(d.Name(), \"~\") {",rule="C12.R3")
+V("C12-link-eperm-tolerated","C12",FW,"			if errors.Is(err, unix.EEXIST) {\n				// https://github.com/nspcc-dev/neofs-node/issues/2563\n				err = nil\n			}","			if errors.Is(err, unix.EEXIST) || errors.Is(err, unix.EPERM) {\n				// https://github.com/nspcc-dev/neofs-node/issues/2563\n				err = nil\n			}",rule="C12.R4")
